@@ -133,7 +133,7 @@ Section Imported.
   (** ** [find_closest_definition_with_filter] *)
   Definition conftest_step (flt : fdef -> bool) (dn : list fdef) (n : string) (dir : path) : option fdef :=
     let c := conftest_py :: dir in
-    match find (fun d => path_eqb (d_file d) c && flt d) dn with
+    match max_by_key d_line (filter (fun d => path_eqb (d_file d) c && flt d) dn) with
     | Some d => Some d
     | None =>
         if (disk_file dk c || in_cache s c) && is_imported n c
